@@ -255,9 +255,11 @@ impl Mul<usize> for ZatBalance {
     type Output = Option<ZatBalance>;
 
     fn mul(self, rhs: usize) -> Option<ZatBalance> {
-        let rhs: i64 = rhs.try_into().ok()?;
-        self.0
-            .checked_mul(rhs)
+        // Widen rather than narrowing `rhs` to `i64`, so that a multiplier above `i64::MAX`
+        // fails only when the exact product is out of range (e.g. not for a zero balance).
+        let product = i128::from(self.0).checked_mul(i128::try_from(rhs).ok()?)?;
+        i64::try_from(product)
+            .ok()
             .and_then(|i| ZatBalance::try_from(i).ok())
     }
 }
